@@ -35,6 +35,39 @@ Ltac req tac :=
   | ring
   | (field; tac) ].
 
+(* second strategy, robust to re-association / commutation inside and outside the power terms:
+   identify every pair of Rpower (exp, ln) terms whose arguments are equal as field expressions, then close by field *)
+Ltac unify_heads tac :=
+  repeat match goal with
+  | |- context [Rpower ?a ?b] =>
+      match goal with
+      | |- context [Rpower ?a' ?b'] =>
+          first [ (constr_eq a a'; constr_eq b b'; fail 1) | idtac ];
+          let H := fresh "Hp" in
+          assert (H : Rpower a' b' = Rpower a b)
+            by (f_equal; first [reflexivity | ring | (field; tac)]);
+          rewrite H; clear H
+      end
+  | |- context [exp ?a] =>
+      match goal with
+      | |- context [exp ?a'] =>
+          first [ (constr_eq a a'; fail 1) | idtac ];
+          let H := fresh "He" in
+          assert (H : exp a' = exp a) by (f_equal; first [ring | (field; tac)]);
+          rewrite H; clear H
+      end
+  | |- context [ln ?a] =>
+      match goal with
+      | |- context [ln ?a'] =>
+          first [ (constr_eq a a'; fail 1) | idtac ];
+          let H := fresh "Hl" in
+          assert (H : ln a' = ln a) by (f_equal; first [ring | (field; tac)]);
+          rewrite H; clear H
+      end
+  end.
+Ltac req2 tac := first [ reflexivity | (unify_heads tac; first [reflexivity | ring | (field; tac)]) ].
+Ltac reqq tac := first [ req tac | req2 tac ].
+
 Ltac btrue := repeat match goal with
   | |- context [Rltb ?a ?b] => rewrite (proj2 (Rltb_true a b)) by lra
   | |- context [Reqb ?a ?b] => rewrite (proj2 (Reqb_false a b)) by lra
@@ -56,28 +89,27 @@ Proof. pose proof clayton_S_pos. lra. Qed.
 Lemma bridge_clayton_cdf : clayton_cumulative_distribution th u v = clayton_C th u v.
 Proof.
   unfold clayton_cumulative_distribution, clayton_C, clayton_S. cbv zeta. btrue. simpl.
-  npow ltac:(first [lra | apply clayton_S_pos | apply clayton_S_pos']).
-  req lra.
+  npow ltac:(first [lra | (pose proof clayton_S_pos; lra)]).
+  reqq lra.
 Qed.
 
 Lemma bridge_clayton_h : clayton_partial_derivative th u v = clayton_h th u v.
 Proof.
   unfold clayton_partial_derivative, clayton_h, clayton_S. cbv zeta.
-  npow ltac:(first [lra | apply clayton_S_pos | apply clayton_S_pos']).
-  replace (Rpower v (- th) + Rpower u (- th) - 1) with (Rpower u (- th) + Rpower v (- th) - 1) by ring.
-  req lra.
+  npow ltac:(first [lra | (pose proof clayton_S_pos; lra)]).
+  reqq lra.
 Qed.
 
 Lemma bridge_clayton_pdf : clayton_probability_density th u v = clayton_c th u v.
 Proof.
   unfold clayton_probability_density, clayton_c, clayton_S. cbv zeta.
   assert (0 < u * v) by nra.
-  npow ltac:(first [lra | assumption | apply clayton_S_pos | apply clayton_S_pos']).
-  req lra.
+  npow ltac:(first [lra | assumption | (pose proof clayton_S_pos; lra)]).
+  reqq lra.
 Qed.
 
 Lemma bridge_clayton_generator : clayton_generator th u = clayton_phi th u.
-Proof. unfold clayton_generator, clayton_phi. npow lra. req lra. Qed.
+Proof. unfold clayton_generator, clayton_phi. npow lra. reqq lra. Qed.
 End ClaytonBridge.
 
 Lemma bridge_clayton_cdf_zero th u v : u <= 0 \/ v <= 0 -> clayton_cumulative_distribution th u v = 0.
@@ -104,12 +136,12 @@ Proof.
     lra. }
   npow ltac:(first [lra | apply exp_pos | exact Hq
                    | (replace (Rpower y (th / (-1 - th)) + Rpower v th - 1) with (Rpower y (th / (-1 - th)) + Rpower v th - 1) by ring; exact Hq)]).
-  req lra.
+  reqq lra.
 Qed.
 
 (* ------------------------------------------------------------------ Frank *)
 Lemma bridge_frank_g th z : frank__g th z = frank_g th z.
-Proof. unfold frank__g, frank_g, np_exp. req lra. Qed.
+Proof. unfold frank__g, frank_g, np_exp. reqq lra. Qed.
 
 Lemma bridge_frank_cdf th u v : th <> 0 -> frank_cumulative_distribution th u v = frank_C th u v.
 Proof.
@@ -121,7 +153,8 @@ Lemma bridge_frank_h th u v : th <> 0 -> frank_partial_derivative th u v = frank
 Proof.
   intros Hth. unfold frank_partial_derivative, frank_h. cbv zeta.
   rewrite (proj2 (Reqb_false th 0)) by assumption.
-  rewrite !bridge_frank_g. reflexivity.
+  first [ (rewrite !bridge_frank_g; reflexivity)
+        | (unfold frank__g, frank_g, np_exp; unfold Rdiv; f_equal; try ring; try (f_equal; ring)) ].
 Qed.
 
 Lemma bridge_frank_pdf th u v : th <> 0 -> 0 <= u <= 1 -> 0 <= v <= 1 ->
@@ -138,7 +171,7 @@ Proof.
 Qed.
 
 Lemma bridge_frank_generator th t : frank_generator th t = frank_phi th t.
-Proof. unfold frank_generator, frank_phi, np_exp, np_log. cbv zeta. req lra. Qed.
+Proof. unfold frank_generator, frank_phi, np_exp, np_log. cbv zeta. reqq lra. Qed.
 
 (* ------------------------------------------------------------------ Gumbel *)
 Section GumbelBridge.
@@ -157,8 +190,8 @@ Lemma bridge_gumbel_cdf : gumbel_cumulative_distribution th u v = gumbel_C th u 
 Proof.
   unfold gumbel_cumulative_distribution, gumbel_C, gumbel_T, np_log, np_exp. cbv zeta.
   rewrite (proj2 (Reqb_false th 1)) by lra.
-  npow ltac:(first [exact Lu | exact Lv | apply gumbel_T_pos']).
-  req lra.
+  npow ltac:(first [exact Lu | exact Lv | (pose proof gumbel_T_pos'; pose proof Lu; pose proof Lv; lra)]).
+  reqq lra.
 Qed.
 
 Lemma bridge_gumbel_h : gumbel_partial_derivative th u v = gumbel_h th u v.
@@ -167,8 +200,8 @@ Proof.
   rewrite (proj2 (Reqb_false th 1)) by lra.
   rewrite bridge_gumbel_cdf.
   unfold gumbel_h, gumbel_T, np_log.
-  npow ltac:(first [exact Lu | exact Lv | apply gumbel_T_pos']).
-  req lra.
+  npow ltac:(first [exact Lu | exact Lv | (pose proof gumbel_T_pos'; pose proof Lu; pose proof Lv; lra)]).
+  reqq lra.
 Qed.
 
 Lemma bridge_gumbel_pdf : gumbel_probability_density th u v = gumbel_c th u v.
@@ -179,10 +212,10 @@ Proof.
   unfold gumbel_c, gumbel_T, np_log.
   assert (Huv : 0 < u * v) by nra.
   assert (Hll : 0 < ln u * ln v) by nra.
-  npow ltac:(first [exact Lu | exact Lv | apply gumbel_T_pos' | exact Hll]).
+  npow ltac:(first [exact Lu | exact Lv | exact Hll | (pose proof gumbel_T_pos'; pose proof Lu; pose proof Lv; nra)]).
   replace (powerRZ (u * v) (-1)) with (Rpower (u * v) (-1)).
   2:{ replace (-1) with (- (1)) by ring. rewrite Rpower_Ropp, Rpower_1 by assumption. simpl. field. nra. }
-  req lra.
+  reqq lra.
 Qed.
 
 Lemma bridge_gumbel_generator : gumbel_generator th u = gumbel_phi th u.
